@@ -30,6 +30,7 @@ func checkC11(p *Program, r *Report) {
 	va := buildEvalAnalysis(m)
 	callFollowsFlag(p, r, m, "C11.R7")
 	c10ContainerConverters(p, r, m, "C11.R8")
+	c11InterfacePassThrough(p, r, m)
 	c11Args(p, r, m, sums, va)
 	c11Results(p, r, m)
 	c11Env(p, r)
@@ -742,6 +743,39 @@ func c11Results(p *Program, r *Report, m *vmModel) {
 		if sg.Params().Len() == 1 && sg.Params().At(0).Type().String() == "[]reflect.Value" && sg.Results().Len() == 1 && isReflectValue(sg.Results().At(0).Type()) && len(fn.Blocks) > 0 {
 			good, why := appendsOncePerElement(fn)
 			r.Check(good, "C11.R3", fn.Name()+"|one element per result", p.Pos(fn.Pos()), "a range over all results with exactly one append on every path of the body", why)
+			// every result that can be handed over is handed over: the append of value.Interface() depends on CanInterface() alone
+			for _, b := range fn.Blocks {
+				for _, in := range b.Instrs {
+					c, ok := in.(*ssa.Call)
+					if !ok || reflectMethod(c) != "Interface" {
+						continue
+					}
+					extra := ""
+					for d := b; d != nil && d.Idom() != nil; d = d.Idom() {
+						id := d.Idom()
+						iff, ok := id.Instrs[len(id.Instrs)-1].(*ssa.If)
+						if !ok || !(edgeOnly(id, 0, d) || edgeOnly(id, 1, d)) {
+							continue
+						}
+						cond := iff.Cond
+						if u, ok := cond.(*ssa.UnOp); ok && u.Op == token.NOT {
+							cond = u.X
+						}
+						if cc, ok := cond.(*ssa.Call); ok {
+							if reflectMethod(cc) == "CanInterface" {
+								continue
+							}
+							extra = "a call of " + calleeName(cc)
+						} else if _, isBin := cond.(*ssa.BinOp); isBin {
+							if k, _ := kindCmp(cond); k != nil {
+								extra = "a test of the result's kind"
+							}
+						}
+					}
+					r.Check(extra == "", "C11.R3", fn.Name()+"|every result that can be handed over is", p.Pos(c.Pos()), "value.Interface() is appended whenever CanInterface() holds",
+						"whether a result is handed over as it is also depends on "+extra+": results for which that differs (typed nil pointers, slices and maps) reach the script as an untyped nil and lose their type")
+				}
+			}
 			// a result is handed over as it is: only an interface wrapper is removed, a pointer stays a pointer
 			for _, b := range fn.Blocks {
 				for _, in := range b.Instrs {
@@ -2124,4 +2158,58 @@ func c11DirectGuards(p *Program, r *Report, m *vmModel) {
 			r.Check(bad == "", "C11.R2", h.Name()+"|direct path only for plain calls", p.Pos(c.Pos()), "entered under !VarArg, !IsVariadic() and NumIn()-1 == number of arguments", bad)
 		}
 	}
+}
+
+// c11InterfacePassThrough (R9): a value converted to the empty interface type arrives as itself. In every conversion helper that
+// compares its target type with the interface type, the situation "target is the interface type" (that comparison decided,
+// everything else both ways) reaches only returns that give back the argument unchanged: a typed nil, a pointer, a struct passed
+// to an interface{} parameter keeps its dynamic type.
+func c11InterfacePassThrough(p *Program, r *Report, m *vmModel) {
+	ka := buildKindAnalysis(m)
+	n := 0
+	for _, fn := range m.fns {
+		sig := fn.Signature
+		if sig.Recv() != nil || sig.Params().Len() != 2 || sig.Results().Len() != 2 || !isReflectValue(sig.Params().At(0).Type()) || !isReflectValue(sig.Results().At(0).Type()) || len(fn.Blocks) == 0 {
+			continue
+		}
+		rt := fn.Params[1]
+		world := map[ssa.Value]bool{}
+		for _, b := range fn.Blocks {
+			for _, in := range b.Instrs {
+				bo, ok := in.(*ssa.BinOp)
+				if !ok || (bo.Op != token.EQL && bo.Op != token.NEQ) {
+					continue
+				}
+				var other ssa.Value
+				switch {
+				case bo.X == ssa.Value(rt):
+					other = bo.Y
+				case bo.Y == ssa.Value(rt):
+					other = bo.X
+				default:
+					continue
+				}
+				if ka.isInterfaceTypeValue(other) {
+					world[bo] = bo.Op == token.EQL
+				}
+			}
+		}
+		if len(world) == 0 {
+			continue
+		}
+		n++
+		bad := ""
+		for _, st := range worldStates(fn, world) {
+			ret, ok := st.b.Instrs[len(st.b.Instrs)-1].(*ssa.Return)
+			if !ok || len(ret.Results) != 2 {
+				continue
+			}
+			if ret.Results[0] != ssa.Value(fn.Params[0]) {
+				bad = "the return at " + p.Pos(instrPos(ret)) + " is reachable when the target is the interface type and gives back something else than the argument"
+			}
+		}
+		r.Check(bad == "", "C11.R9", fn.Name()+"|to the interface type a value passes unchanged", p.Pos(fn.Pos()), "every return reachable with target = interface type returns the argument itself",
+			bad+": a value handed to an interface{} parameter (typeOf, a Go function taking interface{}) is altered on the way: a typed nil arrives as the untyped nil")
+	}
+	r.Floor("C11.R9", n, 1)
 }
